@@ -35,7 +35,7 @@ func (i *interpreter) external(fn *ssa.Function) externalFn {
 	e := externals[name]
 	if e == nil {
 		for _, p := range extPatterns {
-			if strings.HasPrefix(name, p.prefix) && strings.HasSuffix(name, p.suffix) {
+			if strings.HasPrefix(name, p.prefix) && strings.Contains(name, p.suffix) {
 				e = p.fn
 				break
 			}
@@ -271,10 +271,10 @@ func init() {
 		}
 	}
 	extPatterns = []extPattern{
-		{"(*sync/atomic.Pointer[", "]).Load", extAtomicPtrLoad},
-		{"(*sync/atomic.Pointer[", "]).Store", extAtomicPtrStore},
-		{"(*sync/atomic.Pointer[", "]).Swap", extAtomicPtrSwap},
-		{"(*sync/atomic.Pointer[", "]).CompareAndSwap", extAtomicPtrCAS},
+		{"(*sync/atomic.Pointer[", "]).Load[", extAtomicPtrLoad},
+		{"(*sync/atomic.Pointer[", "]).Store[", extAtomicPtrStore},
+		{"(*sync/atomic.Pointer[", "]).Swap[", extAtomicPtrSwap},
+		{"(*sync/atomic.Pointer[", "]).CompareAndSwap[", extAtomicPtrCAS},
 	}
 }
 
